@@ -38,8 +38,6 @@ Spec == Init /\ [][Next]_vars
 
 \* the clause: one answer per (name, patterns), whatever the history
 Inv_C10f == \A a, b \in asked : a[1] = b[1] => a[2] = b[2]
-\* the same, checked incrementally (asked only grows)
-Inv_C10f_step == act = "Lookup" => \A a \in asked : a[1] = q => a[2] = res
 Inv_Answer == act = "Lookup" => res = Answer(q)
 \* documented precedence rules
 ExcludeWins == act = "Lookup" /\ Excluded(q.n, q.exc) => ~res
